@@ -73,7 +73,8 @@ def both(ops):
 # =============================================================================== C10
 def check_c10(tier, seed, replay=None):
     run, broken = base_run("C10", tier, seed,
-        "inputs: every .bop under testdata (valid and invalid); all strings of <= 3 tokens over a 42-token alphabet; generated schema texts and byte-level mutations of them "
+        "inputs: every .bop under testdata (valid and invalid); all strings of <= 3 tokens over a 42-token alphabet; each of the 256 byte values in 18 grammar contexts; every pair punctuation byte x printable byte "
+        "(thorough: every printable pair, also inside a struct body); generated schema texts and byte-level mutations of them "
         "(delete / insert / replace / truncate); each also with the reader failing (non-EOF error) at sampled offsets, short files at EVERY offset. Required of ReadFile: returns "
         "(no panic, no hang); a reader failure before the end gives an error; if it reports success on x then x + one more valid struct gives an error or a File containing that struct. "
         "The extracted model's result (full File dump) is compared on every input; distinct = distinct (input, failure offset)",
@@ -115,9 +116,9 @@ def check_c10(tier, seed, replay=None):
             if kind == 0:
                 del m[p]
             elif kind == 1:
-                m.insert(p, rng.choice(list(b"{}[];=\"/*$\n-<1a(")))
+                m.insert(p, rng.choice(list(b"{}[];=\"/*$\n-<1a(")) if rng.below(3) else 32 + rng.below(95))
             elif kind == 2:
-                m[p] = rng.choice(list(b"{}[];=\"/*$\n-<1a("))
+                m[p] = rng.choice(list(b"{}[];=\"/*$\n-<1a(")) if rng.below(3) else 32 + rng.below(95)
             elif kind == 3:
                 m = m[:p]
             else:
@@ -126,6 +127,22 @@ def check_c10(tier, seed, replay=None):
             inputs.append((bytes(m), -1, "ast-mutation"))
         for _ in range(4):
             inputs.append((txt, rng.below(len(txt) + 1), "ast"))
+    # every byte value in every position class of the grammar (a byte the tokenizer has no entry for, or only a partial one, must be an error, never a panic),
+    # and every pair of a punctuation byte with a printable byte at the top level (thorough: every printable pair, also inside a body)
+    ctxs = [b"%s", b"%s\n", b"struct A { int32 %sx; }", b"struct A { %s int32 x; }", b"enum E { A = %s; }", b"enum E { A = %s1; }", b"const int32 x = %s 5;", b"const int32 x = %s5;",
+            b"message M { %s1 -> int32 a; }", b"message M { 1 %s> int32 a; }", b"struct A { int32 x%s }", b"%sstruct A { }", b"struct A { int32[%s] x; }", b"1%s", b"-%s", b"struct A { map[string%s int32] m; }",
+            b"[opcode(%s)] struct A { }", b"[flags] enum F { A = 1 %s 2; }"]
+    for c in ctxs:
+        for v in range(256):
+            inputs.append((c.replace(b"%s", bytes([v])), -1, "byte-in-context"))
+    punct = [v for v in range(33, 127) if not chr(v).isalnum()]
+    printable = list(range(32, 127)) + [9, 10, 13]
+    firsts = printable if tier == "thorough" else punct
+    for a in firsts:
+        for bb in printable:
+            inputs.append((bytes([a, bb]), -1, "byte-pair"))
+            if tier == "thorough":
+                inputs.append((b"struct A { int32 " + bytes([a, bb]) + b" x; }", -1, "byte-pair"))
     # special: things known to matter
     for s in ["[flags] enum E:int32 {A = 1 << -1;}", "struct A{int32 a;}\n$ struct B{}", "struct A{}\n/* open", "struct A{}\n\"open", "/* c */", "struct A{}/* c */",
               "enum E { A = 1; } /*/", "/*/", "message s{/*/ //e", "[flags]\nenum F { A = 1; B = A | 1; }\nstruct X { int32 a; }", "", "\n", "import \"a.bop\""]:
@@ -204,7 +221,9 @@ def check_c10(tier, seed, replay=None):
 
 # =============================================================================== C11
 def strip_comments(dump):
-    return re.sub(r" c=[0-9a-f]*", " c=", dump)
+    """erase what C16 lets a formatter change: doc comments, and the field tags, which are written as doc comments of a fixed shape (`//[tag(k:"v")]`) and
+    follow their attachment (a tag line after an end-of-line block comment attaches only once the formatter has moved that comment to its own line)"""
+    return re.sub(r" \[[0-9a-f:,a-z]*\]( ;|$)", r" []\1", re.sub(r" c=[0-9a-f]*", " c=", dump))
 
 
 def c11_cases(rng, tier):
@@ -593,6 +612,8 @@ def check_fmt(pid, tier, seed, replay=None):
             if rng.below(4) == 0:
                 t = t.replace("array[int32[]]", "int32[][]").replace("array[string[]]", "string[][]")
             texts.append((items, t))
+        # end-of-line comments after fields / members / headers (not a layout C11's expected dump covers: comment attachment is compared with the model only)
+        texts.append((items, frontgen.decorate(frontgen.render(items, frontgen.Layout(canonical=True)), rng)))
     # the first four are the witnesses of the refutation theorems (front/FmtFacts.v)
     for extra in ["enum E : uint8 { A = 1; }\n", "import \"a.bop\"\nstruct A { int32 a; }\n", "[flags]\nenum F { A = 1; B = A | 2; }\n",
                   "struct A { int32[][] grid; }\n", "struct A { array[array[int32]] g; map[string, map[int32, string[]]] m; }\n"]:
